@@ -218,6 +218,9 @@ _G_RUN = _v2p("^VerifC02_run$", dict(n=[1, 2], H=[1, 2], J=[1]), dict(n=[1, 2], 
 _G_RUN_RATE = _v2p("^VerifC02_run_rate$", dict(n=[1, 2], H=[1, 2], J=[1]), dict(n=[1, 2], H=[1, 2, 3], J=[1]), maxpaths=400000, approx=True)
 _G_SIMPLE = dict(mod="v2", pkg="priority/simple", overlay="harness/v2/simple", harness="^VerifC01_simple_handler$",
                  params=dict(quick=dict(H=[1, 2], K=[3]), thorough=dict(H=[1, 2, 3], K=[4])))
+# the simplified constructor: accepts exactly what the wrapped constructor accepts for the REQUESTED HandlersQuantity (symbolic, 0..N+2) and runs exactly that many handlers
+_G_SIMPLE_NEW = dict(mod="v2", pkg="priority/simple", overlay="harness/v2/simple", harness="^VerifC01_simple_new$",
+                     params=dict(quick=dict(N=[1, 2, 3]), thorough=dict(N=[1, 2, 3, 4, 5])))
 
 _PRIO_NOTE = ("Bounds: n configured priorities (quick <=3, thorough <=4) with symbolic 64-bit values; J items per input per call; H and all counters are unconstrained 64-bit words in the step "
               "obligations; bounded runs from New use H<=2 (3), <=2 inputs, <=1 (2) items each. Outside: n beyond the bound, dividers that write more than one foreign key, handlers that release what they never received. "
@@ -231,7 +234,7 @@ def _prio(pid, text, groups, **kw):
 _prio("C01", "In-flight <= HandlersQuantity: the capacity monitor (ghost handed-out minus released, +1 <= H) runs at the instant of every output write on every path of every real function of the round "
       "(calcTactic, recalcTactic, io, iou, prioritize, feedback readers), each started from an arbitrary state satisfying the invariant and shown to preserve it (inductive step: histories of any length), "
       "plus loop()/main() runs with releases at every point, runs from New, the constructor establishing the invariant, and the simple handler's receive->Handle->Release order.",
-      [_G_STEP_A, _G_STEP_B, _G_PRIOR, _G_LOOP1, _G_NEW, _G_NEW_RATE, _G_RUN, _G_RUN_RATE, _G_SIMPLE])
+      [_G_STEP_A, _G_STEP_B, _G_PRIOR, _G_LOOP1, _G_NEW, _G_NEW_RATE, _G_RUN, _G_RUN_RATE, _G_SIMPLE, _G_SIMPLE_NEW])
 _prio("C02", "Exactly-once, correctly tagged, FIFO per priority: pending-item monitor (an input read is followed by the output write of exactly that item with the priority its channel is registered under, "
       "before any other read) on all step and loop paths; completeness and per-priority order on bounded runs from New to termination; Handle exactly once per item in the simple handler.",
       [_G_STEP_A, _G_STEP_B, _G_PRIOR, _G_LOOP1, _G_RUN, _G_RUN_RATE, _G_SIMPLE])
@@ -332,7 +335,7 @@ PROPS["C19"] = dict(
              dict(mod="v2", pkg="join", overlay="harness/v2/join"), dict(mod="v2", pkg="join/unite", overlay="harness/v2/unite"),
              dict(mod="v2", pkg="limit", overlay="harness/v2/limit"), dict(mod="v1", pkg="priority", overlay="harness/v1/priority"),
              dict(mod="v1", pkg="join", overlay="harness/v1/join")],
-    groups=[_G_LOOP1, _G_RUN, _G_RUN_RATE, _G_RUNFAULT, _G_NEW, _G_NEW_RATE, _G_SIMPLE, _V1_MAIN, _V1_NEW, _V1_RUNFAULT, _V1_SIMPLE,
+    groups=[_G_LOOP1, _G_RUN, _G_RUN_RATE, _G_RUNFAULT, _G_NEW, _G_NEW_RATE, _G_SIMPLE, _G_SIMPLE_NEW, _V1_MAIN, _V1_NEW, _V1_RUNFAULT, _V1_SIMPLE,
             _v1p("^VerifC16_v1prio_stop$", dict(n=[1], J=[1], B=[1], K=[1]), dict(n=[1], J=[1], B=[1], K=[1])),
             dict(mod="v2", pkg="join", overlay="harness/v2/join", harness="^VerifC03_join_", params=dict(quick=dict(JS=[2], M=[3], T=[2]), thorough=dict(JS=[2, 3], M=[4], T=[2]))),
             dict(mod="v2", pkg="join/unite", overlay="harness/v2/unite", harness="^VerifC03_unite_", params=dict(quick=dict(JS=[2], K=[2], T=[2]), thorough=dict(JS=[2, 3], K=[3], T=[2]))),
